@@ -36,6 +36,12 @@ SOURCES += [
     ("deco", "def dec(f):\n    return f\n@dec\nclass C(object):\n    a = 1\n    @staticmethod\n    def s(x=1, *y, **z):\n        return x\n    @property\n    def p(self):\n        return self.a\n"
              "    def m(self):\n        return super(C, self).__init__()\n"),
 ]
+# byte strings inside containers of every reader: a tuple of more than 255 items (type code '(' even from 3.4), a small tuple, a frozenset
+# built by the compiler for `in {...}`, nested tuples; text beside them
+SOURCES.append(("bytesin", "bt = (" + ", ".join("b'k%d'" % i for i in range(260)) + ")\nst = (b'GET', 'text', (b'in', (b'ner',)))\n"
+                "def meth(m):\n    return m in {b'GET', b'HEAD', b'\\xff'} or m in {'get', 'head'} or m in (b'PUT', b'PATCH')\n" if PY3 else
+                "bt = (" + ", ".join("'k%d'" % i for i in range(260)) + ")\nst = ('GET', u'text', ('in', ('ner',)))\n"
+                "def meth(m):\n    return m in ('GET', 'HEAD', '\\xff') or m in (u'get', u'head')\n"))
 if not PY3:
     SOURCES.append(("py2zoo", "def old(a, b, tb):\n    print >>a, b,\n    print a\n    exec 'x = 1' in {}\n    y = `a`\n    z = a <> b\n    try:\n        raise ValueError, b, tb\n    except ValueError, e:\n        raise e\n    return 0777, 10L, ur'x'\n"))
 if V >= (3, 6):
